@@ -147,6 +147,9 @@ func TestC17(t *testing.T) {
 			if strings.Contains(layer, "-v1-") && (filter == "not" || filter == "and-not" || filter == "or" || filter == "or-many") {
 				filter = "metadata" // the v1 query parameters cannot express composite filters
 			}
+			if layer == "L3-v1-accounts" && rapid.IntRange(0, 2).Draw(rt, "balanceFilter") == 0 {
+				filter = "balance" // a bound on the balance, with an operand a 64-bit float cannot hold
+			}
 		}
 		desc := rapid.Bool().Draw(rt, "desc")
 
@@ -172,6 +175,8 @@ func TestC17(t *testing.T) {
 				md = `{"k":"v"}`
 			}
 			switch filter {
+			case "balance":
+				match = true // (what the bound selects is not evaluated here: every account passes, the bound itself must survive the walk)
 			case "reference", "metadata", "and-not", "or", "or-many":
 				match = tag // and-not: k=v and not k2=x (no row has k2); or: k=v or k=w (no row has k=w)
 			case "not":
@@ -397,6 +402,10 @@ func TestC17(t *testing.T) {
 				want = expAccounts
 				if filter == "metadata" {
 					params.Set("metadata[k]", "v")
+				}
+				if filter == "balance" {
+					params.Set("balance", rapid.SampledFrom([]string{"9007199254740993", "1000000000000000001", "-9007199254740993", "9223372036854775807"}).Draw(rt, "balanceBound"))
+					params.Set("balanceOperator", rapid.SampledFrom([]string{"gt", "gte", "lt", "lte"}).Draw(rt, "balanceOperator"))
 				}
 				w = httpWalker("/api/ledger/l1/accounts", "address", params, "")
 			}
